@@ -9,6 +9,7 @@ import (
 	"encoding/hex"
 	"encoding/json"
 	"fmt"
+	"math"
 	"runtime"
 	"strings"
 	"time"
@@ -320,6 +321,8 @@ func (b *histBuilder) postFileFor(owner chain.Account, content []byte, maxProofs
 	var expires int64
 	if days > 0 {
 		expires = b.c.Height + days*14400 + 7
+	} else if days < 0 {
+		expires = days // a negative expiry: accepted, and paid from the plan like an expiry of 0
 	}
 	r := b.send(owner, &storagetypes.MsgPostFile{Creator: owner.Bech, Merkle: f.Merkle, FileSize: f.FileSize, MaxProofs: maxProofs, Expires: expires, Note: "{}"})
 	if r.Code == 0 {
@@ -423,8 +426,11 @@ func buildHistory(rt *rapid.T, full bool) (*histBuilder, string) {
 			case 3:
 				o := b.owners[rapid.IntRange(0, 1).Draw(rt, "owner")]
 				var days int64
-				if rapid.IntRange(0, 2).Draw(rt, "payOnce") == 0 {
+				switch rapid.IntRange(0, 5).Draw(rt, "payOnce") {
+				case 0, 1:
 					days = rapid.Int64Range(1, 800).Draw(rt, "days")
+				case 2:
+					days = rapid.SampledFrom([]int64{-1, -14400, math.MinInt64}).Draw(rt, "negativeExpiry")
 				}
 				b.postFileFor(o, append([]byte{byte(10 + len(b.files))}, c02Content(rapid.Int64Range(1, 3000).Draw(rt, "size"))...), rapid.Int64Range(1, 4).Draw(rt, "maxProofs"), days)
 			case 4: // attestation / report forms (height-seeded shuffles)
